@@ -182,6 +182,19 @@ class Interp:
             self.rig.sock.subscribe_on_message_received(boom_msg)
             self.rig.sock.subscribe_on_connection_changed(boom_conn)
             self.raisers += 1
+        elif name == "sender":
+            # a connection subscriber that transmits as soon as the link is reported up (as the API classes do)
+            if not getattr(self, "_sender", False):
+                self._sender = True
+                rig = self.rig
+
+                async def on_conn(*, connected):
+                    if connected:
+                        await rig.sock.send(sockops.build(self.gen, "ac_req", []), sockmod.RETRY_CONNECTED)
+                        await rig.sock.send(sockops.build(self.gen, "zone_req", []), sockmod.RETRY_CONNECTED)
+                self.rig.sock.subscribe_on_connection_changed(on_conn)
+        elif name == "arm":
+            net.arm_on_accept.extend(args[0])
         elif name == "ext_reset":
             t = loop.spawn(self.rig.sock.reset_connection())
             t.add_done_callback(lambda t: t.cancelled() or t.exception())
@@ -278,7 +291,7 @@ class Interp:
         self.rig.dispose()
 
 
-FAULTS = ["eof", "reset", "garbage", "badcrc", "trunc_eof", "undecodable", "writefault", "send_bad", "ext_reset", "script"]
+FAULTS = ["eof", "reset", "garbage", "badcrc", "trunc_eof", "undecodable", "writefault", "send_bad", "ext_reset", "script", "arm"]
 
 
 def _simple_op(gen):
@@ -295,6 +308,7 @@ def _simple_op(gen):
         st.sampled_from(["struct", "value", "notimpl"]).map(lambda v: ["send_bad", v]),
         st.lists(st.tuples(st.sampled_from(["refuse", "timeout", "gaierror", "accept", "accept"]), st.sampled_from(LATS)).map(list),
                  min_size=1, max_size=3).map(lambda s: ["script", s]),
+        st.lists(st.integers(1, 6), min_size=1, max_size=3).map(lambda a: ["arm", a]),
     )
 
 
@@ -325,6 +339,19 @@ def make_machine(gen: int, stats: Stats):
 
         @rule(dt=st.sampled_from(DTS))
         def advance(self, dt):
+            self._do(["advance", dt])
+
+        @rule()
+        def sending_subscriber(self):
+            self._do(["sender"])
+
+        @rule(arm=st.lists(st.integers(1, 6), min_size=1, max_size=3), how=st.sampled_from(["eof", "reset"]),
+              dt=st.sampled_from(DTS))
+        def faulty_reconnection(self, arm, how, dt):
+            """The next connection(s) fail on one of their first writes (half-open link)."""
+            self._do(["sender"])
+            self._do(["arm", arm])
+            self._do([how])
             self._do(["advance", dt])
 
         @rule()
@@ -362,7 +389,7 @@ def shards(tier: str):
 
 
 def floors(tier: str):
-    return {"same-instant": 80, "encode-failure-while-down": 20, "fault:writefault": 50, "fault:badcrc": 50}
+    return {"same-instant": 80, "encode-failure-while-down": 20, "fault:writefault": 50, "fault:badcrc": 50, "fault:arm": 100}
 
 
 def run_shard(spec, seed: int, tier: str):
